@@ -52,6 +52,13 @@ N_pit == <<"p", "i", "t">>
 N_p1 == <<"p", "1">>
 N_p2d5 == <<"p", "2", ".", "5">>
 N_pm1 == <<"p", "-", "1">>
+N_pd5 == <<"p", ".", "5">>                 \* numerals without a leading digit, with a trailing point, negative without a leading digit
+N_qd9 == <<"q", ".", "9">>
+N_pmd5 == <<"p", "-", ".", "5">>
+N_p5dot == <<"p", "5", ".">>
+N_p0 == <<"p", "0">>
+N_p5 == <<"p", "5">>
+N_p10 == <<"p", "1", "0">>
 N_q0d1 == <<"q", "0", ".", "1">>
 N_q0d9 == <<"q", "0", ".", "9">>
 N_q0d5 == <<"q", "0", ".", "5">>
